@@ -10,11 +10,15 @@ pub mod c13;
 pub mod c14;
 pub mod c15;
 pub mod c18;
+pub mod idx;
 
 pub fn dispatch(prop: &str, cfg: &RunCfg, out: &Out) {
     match prop {
         "C01" => c01::run(cfg, out),
+        "C03" => idx::run(idx::Kind::C03, cfg, out),
+        "C04" => idx::run(idx::Kind::C04, cfg, out),
         "C05" => c05::run(cfg, out),
+        "C09" => idx::run(idx::Kind::C09, cfg, out),
         "C10" => c10::run(cfg, out),
         "C12" => c12::run(cfg, out),
         "C13" => c13::run(cfg, out),
